@@ -33,6 +33,18 @@ def recipe(c: Check):
     c.obligations("C16")
     c.run_driver("alloc", 0, shards=1, timeout=300)
     c.run_driver("barrage", q(c.tier, 350, 6000), shards=q(c.tier, 2, 8), timeout=q(c.tier, 300, 3000))
+    if c.tier == "thorough" and c.harness_ok:
+        # the same barrage against a child built with the race detector; races on listed shared tables are violations
+        from vlib import sh, WORK, GOENV
+        rc, out, _ = sh("cd %s/harness && go build -race -modfile=%s/harness.mod -tags verif -o %s/h_c16_race ./cmd/c16" % (V, WORK, WORK), timeout=900)
+        if rc == 0:
+            st = c.run_driver("barrage", 1500, shards=4, timeout=3000, env=dict(VERIF_C16_CHILD=os.path.join(WORK, "h_c16_race")),
+                              extra=os.path.join(V, "coq/gen/GenLocks.v"))
+            if st:
+                c.cov["race_reports"] = st.get("race_reports")
+                c.cov["race_reports_outside_listed_tables"] = st.get("race_reports_outside_listed_tables")
+        else:
+            c.notes.append("race-detector build of the child failed: " + out[-300:])
     k = c.cov.get("coq_counters", {}).get("alloc", {})
     if c.harness_ok and (k.get("NCLAMPLOW", 0) == 0 or k.get("NCLAMPHIGH", 0) == 0):
         c.broken.append(dict(kind="sanity", name="alloc driver reached no negative / no above-maximum PoolCount case", detail=str(k)))
